@@ -1,5 +1,5 @@
 (* C16 — Resume policy governs the algorithm service's lifetime; restart only when allowed.  Per-reconcile theorems. *)
-From KV Require Import Base.Prelude Base.Cond Model.World Proofs.WorldPlan.
+From KV Require Import Base.Prelude Base.Cond Model.World Proofs.WorldPlan Proofs.WorldInv2 Proofs.WorldQuiet.
 Open Scope Z_scope.
 
 (* A suggestion reconcile that sees the Suggestion Succeeded performs no algorithm call and nothing but the deletion
@@ -18,3 +18,30 @@ Theorem C16_restart_only_when_allowed : forall cf e sug ws st1 stop,
   st1 <> e_st e -> e_completed (e_st e) = true /\ restart_enabled_e cf e = true /\ st1 = mark_restarting (e_st e).
 Proof. exact plan_restart_only_when_allowed. Qed.
 Print Assumptions C16_restart_only_when_allowed.
+
+(* Cleanup at quiescence (state-level, joint model): in any state satisfying the inductive invariant where nothing is left
+   to do and the environment is done, a completed experiment with resumePolicy Never or FromVolume has its (non-failed)
+   suggestion marked Succeeded and neither Deployment nor Service exists.  (The failed-suggestion case is known finding F14.) *)
+Theorem C16_cleanup : forall w e s,
+  InvS w -> quiescent w -> env_done w -> w_exp w = Some e -> e_completed (e_st e) = true ->
+  c_resume (w_cfg w) <> LongRunning -> w_sug w = Some s -> s_is (s_st s) SFailed = false ->
+  s_is (s_st s) SSucceeded = true /\ i_dep (w_infra w) = None /\ i_svc (w_infra w) = false.
+Proof. exact quiescent_cleanup. Qed.
+Print Assumptions C16_cleanup.
+
+(* Whenever the suggestion is neither Succeeded nor Failed at quiescence -- LongRunning after completion, or any policy
+   after a restart -- the algorithm service is running: Deployment available, Service present, suggestion Running, and
+   under FromVolume the volume claim exists. *)
+Theorem C16_service_running : forall w s,
+  InvS w -> quiescent w -> env_done w -> w_sug w = Some s -> s_completed (s_st s) = false ->
+  i_dep (w_infra w) = Some true /\ i_svc (w_infra w) = true /\ s_is (s_st s) SRunning = true /\
+  (c_resume (w_cfg w) = FromVolume -> i_pvc (w_infra w) = true).
+Proof. exact quiet_service_up. Qed.
+Print Assumptions C16_service_running.
+
+(* The volume claim is kept: the suggestion controller never plans to delete anything but the Deployment and the Service
+   (the experiment and trial controllers plan no infrastructure write at all, C01_requests_bound / plan shapes). *)
+Theorem C16_pvc_kept : forall w resp k onf,
+  In (WInfraDelete k, onf) (fst (plan_sug w resp)) -> k = IDep \/ k = ISvc.
+Proof. exact plan_sug_deletes. Qed.
+Print Assumptions C16_pvc_kept.
